@@ -1221,6 +1221,10 @@ pub fn check_cmd(id: &str, tier: Tier) -> i32 {
     // loose pack files of the low-level creators, opened as a container and one by one on
     // whole-file readers (one with an EMPTY content pack: zero-length tables)
     for (k, (c, n)) in [(Comp::None, 5u32), (Comp::Zstd(3), 5), (Comp::None, 0)].iter().enumerate() {
+        // C06 quick runs every case in two build profiles: it keeps the two uncompressed ones
+        if tier == Tier::Quick && id == "C06" && *c != Comp::None {
+            continue;
+        }
         match make_bare_packs_base(&format!("P-bare-{}-{n}contents", c.name()), *c, s32 ^ (k as u32 + 11), *n, scratch.path(), other.clone()) {
             Ok(b) => bases.push(b),
             Err(f) => {
@@ -1231,6 +1235,9 @@ pub fn check_cmd(id: &str, tier: Tier) -> i32 {
     }
     // tables and stores whose blocks are exact multiples of 1 KiB
     for (name, spec) in [("K-OneFile-none-255", base_spec(6, Packaging::OneFile, Comp::None, s32)), ("K-TwoFiles-lz4-511", base_spec(7, Packaging::TwoFiles, Comp::Lz4(3), s32))] {
+        if tier == Tier::Quick && id == "C06" && name.ends_with("511") {
+            continue;
+        }
         match make_base(name, &spec, scratch.path(), other.clone()) {
             Ok(b) => bases.push(b),
             Err(f) => {
